@@ -51,6 +51,8 @@ type irVector struct {
 	Ins   *int    `json:"ins,omitempty"`
 	Refs2 [][]int `json:"refs2,omitempty"`
 	Want2 *irWant `json:"want2,omitempty"`
+	// vectors of MetadataWide.tla: IDs are model IDs, Wide is the table of the wide ones (scale.go)
+	Wide []wideEntry `json:"wide,omitempty"`
 }
 
 type irRow struct {
@@ -60,6 +62,7 @@ type irRow struct {
 	Ins   *int    `json:"ins,omitempty"`
 	Refs2 [][]int `json:"refs2,omitempty"`
 	Got2  *irWant `json:"got2,omitempty"`
+	raw   irWant  // what was printed, concrete IDs (for messages)
 }
 
 var reDefLine = regexp.MustCompile(`(?m)^!(\d+) = (distinct )?(.*)$`)
@@ -126,7 +129,7 @@ func buildIR(ids []int64, refs [][]int) (*ir.Module, []metadata.Definition) {
 func evalIR(vectors []irVector) (rows []irRow, texts []string, extras []string, crashed []*jobResult) {
 	jobs := make([]job, len(vectors))
 	for i, v := range vectors {
-		jobs[i] = job{Kind: "ir", IDs: v.IDs, Refs: v.Refs, Ins: -1}
+		jobs[i] = job{Kind: "ir", IDs: concreteAll(v.IDs), Refs: v.Refs, Ins: -1}
 		if v.Ins != nil {
 			jobs[i].Ins = *v.Ins
 		}
@@ -138,13 +141,13 @@ func evalIR(vectors []irVector) (rows []irRow, texts []string, extras []string, 
 	crashed = make([]*jobResult, len(vectors))
 	for i, v := range vectors {
 		r := res[i]
-		rows[i] = irRow{IDs: v.IDs, Refs: normRefs(v.Refs, len(v.IDs)), Got: r.Got}
+		rows[i] = irRow{IDs: v.IDs, Refs: normRefs(v.Refs, len(v.IDs)), Got: modelWant(r.Got), raw: r.Got}
 		texts[i] = r.Text
 		extras[i] = r.Extra
 		if v.Ins != nil {
 			rows[i].Ins = v.Ins
 			rows[i].Refs2 = normRefs(v.Refs2, len(v.IDs)+1)
-			g2 := r.Got2
+			g2 := modelWant(r.Got2)
 			rows[i].Got2 = &g2
 			if r.Extra == "" && r.Extra2 != "" {
 				extras[i] = "after inserting an unnumbered definition and printing again: " + r.Extra2
@@ -236,6 +239,7 @@ type parseRow struct {
 	// operands of a specialised node sorted by field, and the printed token order is not prescribed
 	Unordered bool `json:"unordered,omitempty"`
 	// not part of the judged record
+	rawPrinted printed // concrete IDs, for messages
 	freeSites bool // the attachment sites of this text are not prescribed: only identity is judged there
 	text      string
 	name      string
@@ -246,7 +250,7 @@ type parseRow struct {
 func renderOp(o op, zr string) string {
 	switch o["k"] {
 	case "ref":
-		return fmt.Sprintf("!%s%d", zr, int64(o["id"].(float64)))
+		return fmt.Sprintf("!%s%d", zr, concrete(int64(o["id"].(float64))))
 	case "null":
 		return "null"
 	case "str":
@@ -316,7 +320,7 @@ func render(t patText, sp int) string {
 		if d.Distinct {
 			dist = "distinct "
 		}
-		fmt.Fprintf(&sb, "!%s%d = %s!{%s}\n", zd, d.ID, dist, strings.Join(parts, ", "))
+		fmt.Fprintf(&sb, "!%s%d = %s!{%s}\n", zd, concrete(d.ID), dist, strings.Join(parts, ", "))
 	}
 	named("post")
 	return sb.String()
@@ -343,6 +347,26 @@ func Run(tier, replay string) {
 	phases := map[string]float64{}
 	tPhase := time.Now()
 	lap := func(name string) { phases[name] = time.Since(tPhase).Seconds(); tPhase = time.Now() }
+	// the two slow generators run beside the others
+	denseLens, denseExplicit := "{1100}", "{0, 1024}"
+	maxN, bigPows := "3", "{7, 8, 10, 12, 15, 16, 20, 24, 30, 31, 32}"
+	if tier == "thorough" {
+		denseLens, denseExplicit = "{1100, 2100}", "{0, 256, 1024, 2048}"
+		var ks []string
+		for k := 7; k <= 32; k++ {
+			ks = append(ks, strconv.Itoa(k))
+		}
+		maxN, bigPows = "4", "{"+strings.Join(ks, ", ")+"}"
+	}
+	wideCh, graphCh := make(chan *mbt.TLCResult, 1), make(chan *mbt.TLCResult, 1)
+	go func() {
+		wideCh <- mbt.MustTLC(mbt.TLCOpts{Spec: "MetadataWide", Cfg: "MetadataWide.cfg", Workers: 1, Timeout: 10 * time.Minute,
+			Consts: map[string]string{"Emit": "TRUE", "DenseLens": denseLens, "DenseExplicit": denseExplicit}})
+	}()
+	go func() {
+		graphCh <- mbt.MustTLC(mbt.TLCOpts{Spec: "MetadataGraph", Cfg: "MetadataGraph.cfg", Workers: 1, Timeout: 15 * time.Minute,
+			Consts: map[string]string{"Emit": "TRUE", "MaxN": maxN, "BigPows": bigPows}})
+	}()
 	// (S) the laws hold for the ID assignment as written; the wrong variants are rejected
 	maxDefs, maxID := "4", "4"
 	if tier == "thorough" {
@@ -384,12 +408,24 @@ func Run(tier, replay string) {
 	th.Cleanup()
 	nPlain := len(vectors)
 	vectors = append(vectors, hist...)
-	maxN := "3"
-	if tier == "thorough" {
-		maxN = "4"
+	// large, boundary and many IDs (MetadataWide.tla; model IDs, the scale comes with the vectors)
+	tw := <-wideCh
+	if len(tw.Violated) > 0 {
+		mbt.Infra("MetadataWide.tla violates %v: specification error", tw.Violated)
 	}
-	tg := mbt.MustTLC(mbt.TLCOpts{Spec: "MetadataGraph", Cfg: "MetadataGraph.cfg", Workers: 1, Timeout: 15 * time.Minute,
-		Consts: map[string]string{"Emit": "TRUE", "MaxN": maxN}})
+	rep.AddTLC(tw)
+	wide, err := mbt.ReadNDJSON[irVector](tw.Dir + "/md_vectors.ndjson")
+	if err != nil || len(wide) == 0 || len(wide[0].Wide) == 0 {
+		mbt.Infra("no vectors / no ID scale from MetadataWide.tla: %v", err)
+	}
+	tw.Cleanup()
+	setScale(wide[0].Wide)
+	for i := range wide {
+		wide[i].Wide = nil
+	}
+	nWideFrom := len(vectors)
+	vectors = append(vectors, wide...)
+	tg := <-graphCh
 	if len(tg.Violated) > 0 {
 		mbt.Infra("MetadataGraph.tla violates %v: specification error", tg.Violated)
 	}
@@ -414,7 +450,8 @@ func Run(tier, replay string) {
 	llvmoracle.Parallel(len(vectors), func(i int) {
 		want := vectors[i].Want.OK && (vectors[i].Want2 == nil || vectors[i].Want2.OK)
 		got := irRows[i].Got.OK && (irRows[i].Got2 == nil || irRows[i].Got2.OK)
-		if got && want && irExtra[i] == "" && irCrashed[i] == nil && (i+off)%llvmEvery == 0 {
+		// (every vector with large / many IDs goes to LLVM: it decides that such IDs are valid)
+		if got && want && irExtra[i] == "" && irCrashed[i] == nil && ((i+off)%llvmEvery == 0 || i >= nWideFrom) {
 			ok, diag := llvmoracle.Accepts(irText[i])
 			mu.Lock()
 			llvmChecked++
@@ -427,19 +464,19 @@ func Run(tier, replay string) {
 	var keptRows []irRow
 	var keptVecs []irVector
 	for i, v := range vectors {
-		rep.Count(fmt.Sprintf("ir:%v/%d/%v", v.IDs, v.Shape, insOf(v)), len(v.IDs) >= 2)
-		caseOf := map[string]interface{}{"kind": "ir", "ids": v.IDs, "refs": v.Refs, "shape": v.Shape}
+		rep.Count(fmt.Sprintf("ir:%s/%d/%v", showIDs(v.IDs), v.Shape, insOf(v)), len(v.IDs) >= 2 || v.IDs[0] >= largeID)
+		caseOf := map[string]interface{}{"kind": "ir", "ids": v.IDs, "refs": v.Refs, "shape": v.Shape, "wide": scaleTable}
 		if v.Ins != nil {
 			caseOf["ins"], caseOf["refs2"] = *v.Ins, v.Refs2
 		}
 		if c := irCrashed[i]; c != nil {
 			if c.Phase != "skipped" {
-				rep.Fail(mbt.Failure{Signature: "C17|print|crash|ir|" + idsClass(v.IDs) + histTag(v), What: fmt.Sprintf("ids %v operands %v%s: the process dies while printing the module (%s): a definition that was left unnumbered is printed through its own operands without end", v.IDs, v.Refs, histWords(v), c.Crashed), Case: caseOf})
+				rep.Fail(mbt.Failure{Signature: "C17|print|crash|ir|" + idsClass(v.IDs) + histTag(v), What: fmt.Sprintf("ids %s shape %d%s: the process dies while printing the module (%s): a definition that was left unnumbered is printed through its own operands without end", showIDs(concreteAll(v.IDs)), v.Shape, histWords(v), c.Crashed), Case: caseOf})
 			}
 			continue // nothing was recorded for this vector
 		}
 		if irExtra[i] != "" {
-			rep.Fail(mbt.Failure{Signature: "C17|ir|" + extraClass(irExtra[i]) + "|" + idsClass(v.IDs) + histTag(v), What: fmt.Sprintf("ids %v shape %d%s: %s", v.IDs, v.Shape, histWords(v), irExtra[i]), Case: caseOf})
+			rep.Fail(mbt.Failure{Signature: "C17|ir|" + extraClass(irExtra[i]) + "|" + idsClass(v.IDs) + histTag(v), What: fmt.Sprintf("ids %s shape %d%s: %s", showIDs(concreteAll(v.IDs)), v.Shape, histWords(v), irExtra[i]), Case: caseOf})
 		}
 		keptRows = append(keptRows, irRows[i])
 		keptVecs = append(keptVecs, v)
@@ -451,6 +488,7 @@ func Run(tier, replay string) {
 	rep.Sample(map[string]interface{}{"kind": "ir", "ids": vectors[len(vectors)/3].IDs, "refs": vectors[len(vectors)/3].Refs, "want": vectors[len(vectors)/3].Want, "got": irRows[len(vectors)/3].Got})
 	rep.Extra["ir_vectors"] = nPlain
 	rep.Extra["ir_history_vectors"] = len(hist)
+	rep.Extra["ir_large_id_vectors"] = len(wide)
 	rep.Extra["ir_llvm_checked"] = llvmChecked
 
 	lap("ir_llvm")
@@ -589,7 +627,11 @@ func isolation(rep *mbt.Report, rows []*parseRow) []isoRow {
 }
 
 func patName(p map[string]interface{}) string {
-	return fmt.Sprintf("graph(n=%v shape=%v sparse=%v perm=%v distinct-mode=%v inline-mode=%v named-mode=%v spelling=%v attachments=%v)", p["n"], p["shape"], p["sparse"], p["perm"], p["dm"], p["inl"], p["nv"], p["sp"], p["ac"])
+	perm := fmt.Sprint(p["perm"])
+	if l, ok := p["perm"].([]interface{}); ok && len(l) > 8 {
+		perm = fmt.Sprintf("[%v %v .. %v]", l[0], l[1], l[len(l)-1])
+	}
+	return fmt.Sprintf("graph(n=%v shape=%v sparse=%v ids-around-2^=%v perm=%v distinct-mode=%v inline-mode=%v named-mode=%v spelling=%v attachments=%v)", p["n"], p["shape"], p["sparse"], p["big"], perm, p["dm"], p["inl"], p["nv"], p["sp"], p["ac"])
 }
 
 func idsClass(ids []int64) string {
@@ -615,7 +657,53 @@ func idsClass(ids []int64) string {
 	if unassigned {
 		parts = append(parts, "unassigned")
 	}
+	// the vectors of MetadataWide.tla: an explicit ID far above the list length / a long list
+	for v := range has {
+		if v >= largeID && v > int64(len(ids)) {
+			parts = append(parts, "large-id")
+			break
+		}
+	}
+	if len(ids) >= largeID {
+		parts = append(parts, "many-definitions")
+	}
 	return strings.Join(parts, "+")
+}
+
+// showIDs prints an ID list; long lists are abbreviated to their ends and their explicit IDs.
+func showIDs(ids []int64) string {
+	if len(ids) <= 12 {
+		return fmt.Sprint(ids)
+	}
+	var expl []string
+	for i, v := range ids {
+		if v != -1 && len(expl) < 6 && (int64(i) != v || i < 2 || i >= len(ids)-2) {
+			expl = append(expl, fmt.Sprintf("[%d]=%d", i, v))
+		}
+	}
+	return fmt.Sprintf("(%d definitions: %v ... %v; %s)", len(ids), ids[:3], ids[len(ids)-2:], strings.Join(expl, " "))
+}
+
+func showRefs(refs [][]int) string {
+	if len(refs) > 12 {
+		return ""
+	}
+	return fmt.Sprintf(" with operands %v", refs)
+}
+
+// showWant prints an outcome with concrete IDs; for long lists only the places where the
+// definition ID differs from its position are shown (mod: the same outcome in model IDs).
+func showWant(w, mod irWant) string {
+	if len(w.IDs) <= 12 {
+		return fmt.Sprintf("{ok:%v ids:%v tokens:%v}", w.OK, w.IDs, w.Tokens)
+	}
+	var odd []string
+	for i, v := range w.IDs {
+		if int64(i) != v && len(odd) < 8 {
+			odd = append(odd, fmt.Sprintf("definition %d printed as !%d", i, v))
+		}
+	}
+	return fmt.Sprintf("{ok:%v %d definitions !%d..!%d; %s}", w.OK, len(w.IDs), w.IDs[0], w.IDs[len(w.IDs)-1], strings.Join(odd, ", "))
 }
 
 func extraClass(s string) string {
@@ -642,7 +730,7 @@ func processParseRows(rep *mbt.Report, rows []*parseRow, canonEvery, off int) []
 	}
 	out := make([]res, len(rows))
 	caseOf := func(r *parseRow) map[string]interface{} {
-		return map[string]interface{}{"kind": "parse", "src": r.Src, "name": r.name, "text": r.text, "want": r.Want, "pat": r.Pat}
+		return map[string]interface{}{"kind": "parse", "src": r.Src, "name": r.name, "text": r.text, "want": r.Want, "pat": r.Pat, "wide": scaleTable}
 	}
 	// 1. LLVM decides which texts are valid (and, for a share, what they mean)
 	llvmoracle.Parallel(len(rows), func(i int) {
@@ -692,6 +780,8 @@ func processParseRows(rep *mbt.Report, rows []*parseRow, canonEvery, off int) []
 			out[i].fail = &mbt.Failure{Signature: "C17|print|reparse-fails|" + tag, What: fmt.Sprintf("%s: the printed module cannot be parsed again: %s", r.name, mbt.Truncate(jr.ReparseError, 300)), Case: caseOf(r)}
 		default:
 			r.Obs, r.Obs2 = jr.Obs, jr.Obs2
+			modelObs(&r.Obs)
+			modelObs(&r.Obs2)
 			if r.Unordered {
 				sortObsByField(&r.Obs)
 				sortObsByField(&r.Obs2)
@@ -703,6 +793,9 @@ func processParseRows(rep *mbt.Report, rows []*parseRow, canonEvery, off int) []
 			if r.Printed.IDs == nil {
 				r.Printed.IDs, r.Printed.Tokens = []int64{}, [][]int64{}
 			}
+			pm := modelWant(irWant{IDs: r.Printed.IDs, Tokens: r.Printed.Tokens})
+			r.rawPrinted = r.Printed
+			r.Printed.IDs, r.Printed.Tokens = pm.IDs, pm.Tokens
 			printedText[i] = jr.Text
 		}
 	}
@@ -791,6 +884,13 @@ func negatives(rep *mbt.Report) {
 
 func (r *parseRow) kindTag() string {
 	if r.Src != "text" {
+		// graph patterns with large IDs / many definitions (MetadataGraph.tla: big, Dense)
+		if b, ok := r.Pat["big"].(float64); ok && b > 0 {
+			return "|large-ids"
+		}
+		if n, ok := r.Pat["n"].(float64); ok && n >= largeID {
+			return "|many-definitions"
+		}
 		return ""
 	}
 	return "|" + r.name[:strings.IndexAny(r.name+"#", "#")]
@@ -887,13 +987,18 @@ func judgeBatch(rep *mbt.Report, t *mbt.TLCResult, irRows []irRow, prs []*parseR
 		}
 		if file == "ir" {
 			row := irRows[ri-1]
-			var want interface{}
+			want := "(see the laws)"
 			if vectors != nil {
-				want = vectors[ri-1].Want
+				w := vectors[ri-1].Want
+				cw := irWant{OK: w.OK, IDs: concreteAll(w.IDs)}
+				for _, t := range w.Tokens {
+					cw.Tokens = append(cw.Tokens, concreteAll(t))
+				}
+				want = showWant(cw, w)
 			}
 			rep.Fail(mbt.Failure{Signature: "C17|ir|" + law + "|" + idsClass(row.IDs),
-				What: fmt.Sprintf("definition list %v with operands %v: law %s fails; the code printed %+v, the specification requires %+v", row.IDs, row.Refs, law, row.Got, want),
-				Case: map[string]interface{}{"kind": "ir", "ids": row.IDs, "refs": row.Refs}})
+				What: fmt.Sprintf("definition list %s%s: law %s fails; the code printed %s, the specification requires %s", showIDs(concreteAll(row.IDs)), showRefs(row.Refs), law, showWant(row.raw, row.Got), want),
+				Case: map[string]interface{}{"kind": "ir", "ids": row.IDs, "refs": row.Refs, "wide": scaleTable}})
 			continue
 		}
 		if file == "iso" {
@@ -916,7 +1021,7 @@ func judgeBatch(rep *mbt.Report, t *mbt.TLCResult, irRows []irRow, prs []*parseR
 		r := prs[ri-1]
 		rep.Fail(mbt.Failure{Signature: "C17|parse|" + law + "|" + r.Src + r.kindTag(),
 			What: fmt.Sprintf("%s: law %s fails on the parsed module: %s", r.name, law, explain(r, law)),
-			Case: map[string]interface{}{"kind": "parse", "src": r.Src, "name": r.name, "text": r.text, "want": r.Want, "pat": r.Pat}})
+			Case: map[string]interface{}{"kind": "parse", "src": r.Src, "name": r.name, "text": r.text, "want": r.Want, "pat": r.Pat, "wide": scaleTable}})
 	}
 }
 
@@ -956,7 +1061,26 @@ func explain(r *parseRow, law string) string {
 	for _, d := range wd {
 		ids = append(ids, d.(map[string]interface{})["id"])
 	}
-	return fmt.Sprintf("printed definition IDs %v (required %v), printed tokens %v", r.Printed.IDs, ids, r.Printed.Tokens)
+	if len(r.rawPrinted.IDs) > 12 {
+		for i, d := range wd {
+			want := concrete(int64(d.(map[string]interface{})["id"].(float64)))
+			if i >= len(r.rawPrinted.IDs) || r.rawPrinted.IDs[i] != want {
+				return fmt.Sprintf("%d definitions; the definition that must be printed as !%d is printed as %v", len(wd), want, at(r.rawPrinted.Tokens, i))
+			}
+			if fmt.Sprint(modelWant(irWant{Tokens: [][]int64{r.rawPrinted.Tokens[i]}}).Tokens[0]) != fmt.Sprint(at(r.Printed.Tokens, i)) {
+				break
+			}
+		}
+		return fmt.Sprintf("%d definitions printed, a reference token differs from the ID of its target", len(r.rawPrinted.IDs))
+	}
+	return fmt.Sprintf("printed definition IDs %v (required model IDs %v), printed tokens %v", r.rawPrinted.IDs, ids, r.rawPrinted.Tokens)
+}
+
+func at(t [][]int64, i int) interface{} {
+	if i < len(t) {
+		return t[i]
+	}
+	return "nothing"
 }
 
 func runReplay(rep *mbt.Report, path string) {
@@ -970,6 +1094,9 @@ func runReplay(rep *mbt.Report, path string) {
 	}
 	var irRows []irRow
 	var prs []*parseRow
+	for _, f := range rf.Failures {
+		setScaleFromCase(f.Case)
+	}
 	for _, f := range rf.Failures {
 		c := f.Case
 		switch c["kind"] {
